@@ -156,4 +156,26 @@ Init == \E c \in Cases(FAM) : st = c.st /\ op = c.op
 Next == UNCHANGED vars
 Spec == Init /\ [][Next]_vars
 DecoderCorrect == Expected(st, op) = Truth(st, op.pid)
+
+---------------------------------------------------------------------------
+(* the implementation layer's control state (CtlStep = parsePacketHeader) against the normative decoder's (UnitStep),
+   folded in lockstep: the selected page is the same at every unit, the code receives whenever the norm does, and
+   at every row of the selected magazine - the only place where `receiving` is consulted for content - they agree *)
+RECURSIVE LockUnits(_, _, _, _, _)
+LockUnits(d, c, us, pts, o) ==
+  IF us = <<>> THEN [ok |-> TRUE, d |-> d, c |-> c]
+  ELSE LET u == Head(us)
+           here == /\ (d.sel = <<>>) = (c.mag = 0 /\ c.page = 0)
+                   /\ d.sel # <<>> => (c.mag = d.sel[1] /\ c.page = (16 * d.sel[2]) + d.sel[3])
+                   /\ d.recv => c.recv
+                   /\ (u.k = "row" /\ d.sel # <<>> /\ u.mag = d.sel[1]) => (c.recv = d.recv)
+           r == LockUnits(UnitStep(d, u, pts, o), IF Reaches(u) THEN CtlStep(c, u) ELSE c, Tail(us), pts, o)
+       IN  [ok |-> here /\ r.ok, d |-> r.d, c |-> r.c]
+RECURSIVE LockPes(_, _, _, _)
+LockPes(d, c, ps, o) ==
+  IF ps = <<>> THEN TRUE
+  ELSE LET r == LockUnits(d, c, BeforeBreak(Head(ps).units), Head(ps).pts, o) IN r.ok /\ LockPes(r.d, r.c, Tail(ps), o)
+CtlRefines ==
+  LET ps == SelectSeq(st.pes, LAMBDA p : p.pid = op.pid /\ (p.pid # 1 \/ st.twopids))
+  IN  LockPes([InitDec EXCEPT !.sel = SelOf(op.page)], CtlInit(op.page), ps, op)
 =============================================================================
